@@ -1,6 +1,6 @@
 """Minecraft legacy Java (1.6 / 1.4 / beta 1.8 kick packets over TCP; `any` = query_legacy, the three in order)."""
 
-FAMILY = dict(
+FAMILY = dict(send_units=3, 
     name="mclegacy", nargs=3, gen="mclegacy", retries=2, port=0, decode_property="C03", entry="mclegacy",
     describe=("kick packets of the three formats with BMP / astral text, i32 / u32 boundary numbers, 1.6-format answers to "
               "the 1.4 ping, and query_legacy over all 8 subsets of legacy variants a server speaks"),
